@@ -4,7 +4,8 @@
  *   msg <sess,…> <fates|-> <ev> …      one client context, UDP (or DTLS, see below) client sessions, a scripted peer
  *                                      (events S: / i: / k: / p: = explicit token / ICMP error / keepalive / piggy-backed
  *                                      response, fates p / P, DTLS sessions: the model side is
- *                                      lean/CoapVerif/Model/MsgLayerX.lean)
+ *                                      lean/CoapVerif/Model/MsgLayerX.lean;  event q:S:MID:CODE and fates q / Q = an ACK
+ *                                      whose code is a REQUEST method 0.01 .. 0.31 - Coap.Msg.rxAckReq)
  *
  * DTLS sessions (7th field of a session word = 2): the session has `proto == COAP_PROTO_DTLS`, libcoap's DTLS layer
  * table (coap_layers_coap[COAP_PROTO_DTLS]: l_write = coap_dtls_send, l_close = coap_dtls_close) and a non-NULL
@@ -24,11 +25,11 @@ static coap_context_t *ctx;
 static coap_session_t *S[MAXS];
 static int nS;
 
-typedef struct { int kind; /* 0 drop 1 ack 2 rst 3 the socket write fails 4 piggy-backed response */ int nd; unsigned long d[4]; } fate_t;
+typedef struct { int kind; /* 0 drop 1 ack 2 rst 3 the socket write fails 4 piggy-backed response 5 ACK with a request code */ int nd; unsigned long d[4]; } fate_t;
 static fate_t fates[256];
 static int nfates, fate_pos;
 
-typedef struct { coap_tick_t time; unsigned seq; int s; int is_rst; int mid; int piggy; int tok; } arrival_t;
+typedef struct { coap_tick_t time; unsigned seq; int s; int is_rst; int mid; int piggy; int tok; int req; /* != 0: ACK with this request code */ } arrival_t;
 static arrival_t pend[1024];
 static int npend;
 static unsigned arr_seq;
@@ -67,12 +68,12 @@ static int on_tx_fail(coap_session_t *session, const uint8_t *data, size_t datal
   return 1;
 }
 
-static void add_arrival(coap_tick_t t, int s, int is_rst, int mid, int piggy, int tok) {
+static void add_arrival(coap_tick_t t, int s, int is_rst, int mid, int piggy, int tok, int req) {
   int i = npend;
   if (npend >= 1024) return;
   while (i > 0 && pend[i - 1].time > t) { pend[i] = pend[i - 1]; i--; }
   pend[i].time = t; pend[i].seq = arr_seq++; pend[i].s = s; pend[i].is_rst = is_rst; pend[i].mid = mid;
-  pend[i].piggy = piggy; pend[i].tok = tok;
+  pend[i].piggy = piggy; pend[i].tok = tok; pend[i].req = req;
   npend++;
 }
 
@@ -82,10 +83,12 @@ static void on_tx(const sim_dgram_t *d) {
   if (!d->decoded) return;
   if (fate_pos < nfates) f = fates[fate_pos++]; else { f.kind = 0; f.nd = 0; }
   if (f.kind == 0) return;
-  if ((f.kind == 1 || f.kind == 4) && d->type != COAP_MESSAGE_CON) return;       /* a NON is not acknowledged */
+  if ((f.kind == 1 || f.kind == 4 || f.kind == 5) && d->type != COAP_MESSAGE_CON) return;       /* a NON is not acknowledged */
   /* kind 4: the ACK carries the response (2.05) and the request's token (an empty message - a ping - has none) */
   for (int i = 0; i < f.nd; i++)
-    add_arrival(d->t + f.d[i], d->sess, f.kind == 2, d->mid, f.kind == 4, d->tkl == 2 ? (d->token[0] << 8) | d->token[1] : -1);
+    add_arrival(d->t + f.d[i], d->sess, f.kind == 2, d->mid, f.kind == 4, d->tkl == 2 ? (d->token[0] << 8) | d->token[1] : -1,
+                /* kind 5: the ACK carries a request method; which one (0.01 .. 0.31) varies with message id and delay */
+                f.kind == 5 ? 1 + (int)((d->mid + f.d[i]) % 31) : 0);
 }
 
 static coap_response_t on_response(coap_session_t *session, const coap_pdu_t *sent, const coap_pdu_t *rcvd, const coap_mid_t mid) {
@@ -121,6 +124,9 @@ static void inject(int s, int type, int code, int mid, int tok, int with_payload
 static void rx_ack(int s, int mid) { inject(s, COAP_MESSAGE_ACK, 0, mid, -1, 0); }
 static void rx_piggy(int s, int mid, int tok) { inject(s, COAP_MESSAGE_ACK, COAP_RESPONSE_CODE_CONTENT, mid, tok, 1); }
 static void rx_rst(int s, int mid) { inject(s, COAP_MESSAGE_RST, 0, mid, -1, 0); }
+/* an ACK that carries the message id but a REQUEST code (class 0, detail 1..31), e.g. the 4 bytes 60 01 <mid>: the ACK
+ * branch of coap_dispatch() stops the retransmission, then "This is not legitimate - Request using ACK": BAD_RESPONSE */
+static void rx_ackreq(int s, int mid, int code) { inject(s, COAP_MESSAGE_ACK, code & 0x1f, mid, -1, 0); }
 
 static unsigned long long last_e;   /* time from now to the earliest deadline in the send queue at the last prepare (0: none) */
 static void do_prepare(void) {
@@ -136,7 +142,7 @@ static void deliver_up_to(coap_tick_t target) {
     arrival_t a = pend[0];
     memmove(pend, pend + 1, sizeof(pend[0]) * (size_t)(--npend));
     if (a.time > sim_now) sim_now = a.time;
-    if (a.piggy) rx_piggy(a.s, a.mid, a.tok); else if (a.is_rst) rx_rst(a.s, a.mid); else rx_ack(a.s, a.mid);
+    if (a.req) rx_ackreq(a.s, a.mid, a.req); else if (a.piggy) rx_piggy(a.s, a.mid, a.tok); else if (a.is_rst) rx_rst(a.s, a.mid); else rx_ack(a.s, a.mid);
   }
 }
 static void advance(coap_tick_t target) {
@@ -190,7 +196,7 @@ static int parse_fate(const char *w, fate_t *f) {
   if (!strcmp(w, "d")) { f->kind = 0; return 1; }
   if (!strcmp(w, "x")) { f->kind = 3; return 1; }
   if (w[0] == 'a' || w[0] == 'A') f->kind = 1; else if (w[0] == 'r' || w[0] == 'R') f->kind = 2;
-  else if (w[0] == 'p' || w[0] == 'P') f->kind = 4; else return 0;
+  else if (w[0] == 'p' || w[0] == 'P') f->kind = 4; else if (w[0] == 'q' || w[0] == 'Q') f->kind = 5; else return 0;
   w++;
   for (;;) {
     if (!isdigit((unsigned char)*w) || f->nd >= 4) return 0;
@@ -246,6 +252,13 @@ static int apply_ev(char *w) {
     if (f[0][0] == 'a') rx_ack(s, mid);
     else if (f[0][0] == 'r') rx_rst(s, mid);
     else inject(s, COAP_MESSAGE_ACK, 0x20 /* class 1: invalid */, mid, -1, 0);
+    return 1;
+  }
+  if (!strcmp(f[0], "q") && n == 4 && allnum(f, 1, 4)) {
+    /* an ACK with message id MID whose code is the request method 0.CODE (1..31) arrives now */
+    int code = atoi(f[3]);
+    if (code < 1 || code > 31) return 0;
+    rx_ackreq(atoi(f[1]), atoi(f[2]), code);
     return 1;
   }
   if (!strcmp(f[0], "o") && n == 4 && allnum(f, 1, 4)) {
